@@ -390,7 +390,16 @@ def schedule_case(ctx, case):
     return r
 
 
-COMPONENTS = {'schedule': schedule_case}
+def route_case(ctx, case):
+    """'A non-immediate disconnect sends everything queued before it' also
+    when it is called from an exception handler on the networking thread
+    (the thread is already marked as stopping then): C14's fault-routing
+    scenarios whose handler queues a farewell and calls disconnect()."""
+    from props import c14_exceptions as P14
+    P14.route_case(ctx, case)
+
+
+COMPONENTS = {'schedule': schedule_case, 'route': route_case}
 
 
 SMALL = [
@@ -492,9 +501,34 @@ def t_random(ctx, n, fine):
     hyp(ctx, 'random_fine' if fine else 'random', strat, body, n)
 
 
+def t_farewell(ctx):
+    bye = {'filter': [], 'early': False, 'do': 'bye'}
+    k = 0
+    for origin in ('listener', 'early_listener'):
+        for version in (757, 340, 47):
+            for comp in (None, 0, 256):
+                for final in ('none', 'false', 'return', 'raise'):
+                    for chain in ([bye], [dict(bye, early=True)],
+                                  [{'filter': ['C'], 'early': False,
+                                    'do': 'return'}, bye],
+                                  [{'filter': [], 'early': True,
+                                    'do': 'reraise'}, bye]):
+                        k += 1
+                        case = {'origin': origin, 'exc': 'B',
+                                'chain': [dict(h) for h in chain],
+                                'final': final, 'final_new': 'C',
+                                'compress': comp, 'version': version}
+                        route_case(ctx, case)
+                        ctx.nt('farewell', k)
+    ctx.sample(case, 'route')
+    ctx.exhaustive_done('handler farewell + disconnect(): 2 origins x 3 '
+                        'versions x 3 compression modes x 4 finals x 4 '
+                        'chains')
+
+
 def tasks(tier):
     q = tier == 'quick'
-    tl = []
+    tl = [('farewell', t_farewell, {})]
     nsh = 2 if q else 8
     for i in range(len(SMALL)):
         # (the two-thread reconnect scenarios are long: more shards)
